@@ -243,7 +243,7 @@ func (a *adapter) TopicsForUser(uid t.Uid, keepDeleted bool, opts *t.QueryOpt) (
 	// Fetch subscriptions. Two queries are needed: users table (p2p) and topics table (grp).
 	// Prepare a list of separate subscriptions to users vs topics
 	join := make(map[string]t.Subscription) // Keeping these to make a join with table for .private and .access
-	var order []string                       // keys of join in order of first appearance (deterministic output)
+	var order []string                      // keys of join in order of first appearance (deterministic output)
 	topq := make([]string, 0, 16)
 	usrq := make([]t.Uid, 0, 16)
 	for _, r := range rows {
